@@ -9,11 +9,13 @@ EXTENDS RefCount
 
 CONSTANT MaxBirths               \* bound on incarnations per model object
 VARIABLES births, deaths
-varsH == <<st, count, creator, explicit, h, last, births, deaths>>
+varsH == <<st, count, creator, explicit, h, m, last, births, deaths>>
 
 MCObjType   == <<"Base", "Derived">>
 MCSlotType4 == <<"Base", "Base", "Derived", "Derived">>
 MCSlotType3 == <<"Base", "Base", "Derived">>
+MembersDerived == {"Derived"}
+MembersNone    == {}
 PolicyAny   == [mc |-> "any", ma |-> "any", sm |-> "any", cmc |-> "any", cma |-> "any"]
 
 InitH == Init /\ births = Zero /\ deaths = Zero
@@ -29,12 +31,12 @@ DestroyedExactlyOnce == \A o \in Objs : deaths[o] + (IF Alive(o) THEN 1 ELSE 0) 
 \* every transition although the VIEW below identifies states that differ only in `last`
 \* (sound: no action reads `last`).
 StepRecord ==
-  [][/\ last'.exp.cnt = Cnt(st', count') /\ last'.exp.ptr = h' /\ last'.exp.same = Same(h')
+  [][/\ last'.exp.cnt = Cnt(st', count') /\ last'.exp.ptr = h' /\ last'.exp.same = Same(h') /\ last'.exp.mem = m'
      \* the most derived destructor runs: the reported type is the object's dynamic type
      /\ \A i \in DOMAIN last'.exp.died : last'.exp.died[i].t = ObjType[last'.exp.died[i].o]
-     \* one operation releases one reference
-     /\ Len(last'.exp.died) <= 1]_varsH
+     \* one operation releases one reference: a second death in the same step can only be a cascade through a member
+     /\ (Len(last'.exp.died) > 1 => \E i \in DOMAIN last'.exp.died : m[last'.exp.died[i].o] \in Objs)]_varsH
 
 BirthBound == \A o \in Objs : births[o] <= MaxBirths
-View == <<st, count, creator, explicit, h, births, deaths>>
+View == <<st, count, creator, explicit, h, m, births, deaths>>
 ===============================================================================
